@@ -161,6 +161,9 @@ func (e *engine) Gen(r *hlib.Rand, tier string) []string {
 	if r.Chance(lsmPct) {
 		return e.genLSM(r, tier)
 	}
+	if r.Chance(8) {
+		return e.genManyLive(r, tier)
+	}
 	T := hlib.Pick(r, []int{16, 32, 64})
 	M := 200 + r.Intn(500)
 	if T == 64 {
@@ -345,6 +348,15 @@ func (e *engine) genLSM(r *hlib.Rand, tier string) []string {
 	var plainW [][]byte           // plain keys written so far (each once)
 	var verW []string             // "hexkey ver" written so far
 	nextPlain, nextVer := 0, 0
+	// key ids in random order: the key ranges of the tables of successive flushes overlap
+	ids := make([]int, 90)
+	for i := range ids {
+		ids[i] = i
+	}
+	for i := len(ids) - 1; i > 0; i-- {
+		j := r.Intn(i + 1)
+		ids[i], ids[j] = ids[j], ids[i]
+	}
 	est := make([]int, B)
 	wrote := func(k, v []byte) {
 		if len(v) >= T {
@@ -365,7 +377,10 @@ func (e *engine) genLSM(r *hlib.Rand, tier string) []string {
 		for i := 0; i < n; i++ {
 			switch x := r.Intn(100); {
 			case x < 60:
-				k := []byte(fmt.Sprintf("p%02d", nextPlain))
+				k := []byte(fmt.Sprintf("p%02d", ids[nextPlain%len(ids)]))
+				if nextPlain >= len(ids) {
+					k = []byte(fmt.Sprintf("q%03d", nextPlain))
+				}
 				nextPlain++
 				plainW = append(plainW, k)
 				if r.Chance(12) {
@@ -376,7 +391,10 @@ func (e *engine) genLSM(r *hlib.Rand, tier string) []string {
 					ops = append(ops, fmt.Sprintf("set %s %s %d", hlib.Hex(k), hlib.Hex(v), keyHash(k)))
 				}
 			default:
-				k := []byte(fmt.Sprintf("w%02d", nextVer))
+				k := []byte(fmt.Sprintf("p%02dv", ids[(nextVer*7+3)%len(ids)]))
+				if nextVer >= 12 {
+					k = []byte(fmt.Sprintf("w%03d", nextVer))
+				}
 				nextVer++
 				ver := 1 + r.Intn(6)
 				verW = append(verW, fmt.Sprintf("%s %d", hlib.Hex(k), ver))
@@ -445,7 +463,18 @@ func (e *engine) genLSM(r *hlib.Rand, tier string) []string {
 			writes(2 + r.Intn(4))
 			flush()
 		}
-		if r.Chance(85) {
+		if life > 0 && r.Chance(45) {
+			// tables moved into the ingest buffer of the base level, whose main tables (drained in an
+			// earlier life) overlap them; reopen BEFORE the drain: the manifest must bring them back
+			// as ingest tables
+			step("lsm l0move")
+			reopen()
+			if r.Chance(50) {
+				writes(2 + r.Intn(3))
+				flush()
+			}
+			down()
+		} else if r.Chance(85) {
 			down()
 			if r.Chance(40) {
 				step("lsm keep")
@@ -466,7 +495,56 @@ func (e *engine) genLSM(r *hlib.Rand, tier string) []string {
 	return ops
 }
 
+// genManyLive: one sealed value-log segment holding 70-150 small live records (more than
+// MaxBatchCount = 64, far less than MaxBatchSize), then GC of that segment: rewrite has to re-insert the
+// write-back set in several requests.  Reads and iterator dumps are compared after GC and after reopen;
+// pointers and file lists are not (the model re-inserts in one batch, see props assumptions).
+func (e *engine) genManyLive(r *hlib.Rand, tier string) []string {
+	T := 4
+	n := 70 + r.Intn(81)
+	M := 40*n + 2000 // all n records fit into segment 0
+	ops := []string{fmt.Sprintf("open %d %d 1", T, M)}
+	var keys [][]byte
+	for i := 0; i < n; i++ {
+		k := []byte(fmt.Sprintf("m%03d", i))
+		keys = append(keys, k)
+		v := bytes.Repeat([]byte{byte('a' + i%26)}, T+r.Intn(3))
+		v[0] = byte(i)
+		ops = append(ops, fmt.Sprintf("set %s %s %d", hlib.Hex(k), hlib.Hex(v), keyHash(k)))
+	}
+	// a few dead records, and one write that does not fit any more: segment 0 is sealed
+	for i := 0; i < 3+r.Intn(5); i++ {
+		k := keys[r.Intn(len(keys))]
+		if r.Chance(50) {
+			ops = append(ops, fmt.Sprintf("del %s %d", hlib.Hex(k), keyHash(k)))
+		} else {
+			ops = append(ops, fmt.Sprintf("set %s %s %d", hlib.Hex(k), hlib.Hex([]byte{1, 2}), keyHash(k)))
+		}
+	}
+	big := bytes.Repeat([]byte{'Z'}, M)
+	ops = append(ops, fmt.Sprintf("set %s %s %d", hlib.Hex([]byte("mbig")), hlib.Hex(big), keyHash([]byte("mbig"))))
+	readback := func() {
+		for _, k := range keys {
+			ops = append(ops, "get "+hlib.Hex(k))
+		}
+		ops = append(ops, "get "+hlib.Hex([]byte("mbig")), "scan")
+	}
+	readback()
+	ops = append(ops, "gc 0 0")
+	readback()
+	if r.Chance(60) {
+		ops = append(ops, "gc 0 0") // second pass: the segment is removed
+		readback()
+	}
+	ops = append(ops, "reopen")
+	readback()
+	return ops
+}
+
 func (e *engine) Nontrivial(ops, impl, model, spec []string) bool {
+	if len(ops) > 1 && strings.HasPrefix(ops[1], "set 6d303030 ") {
+		return true // many-live-records case: always rewrites > MaxBatchCount live records
+	}
 	if len(ops) > 0 && strings.HasSuffix(ops[0], " lsm") {
 		// an LSM schedule is non-trivial when a table was moved below L0 before a reopen and two
 		// flushes happened after it
